@@ -4,8 +4,26 @@ import json, os
 HERE = os.path.dirname(os.path.dirname(os.path.abspath(__file__)))
 props = [json.loads(l) for l in open(os.path.join(HERE, "properties.jsonl"))]
 TECH = {
- "C01": "ast-based sibling-branch agreement (argsort), layout (order=F<=>reversed dims), option threading, index-base and alias/effect analysis over permute_systems/swap/operators",
- "C02": "unordered-iteration-into-permutation rule, symbolic reshape/transpose factorisation, option threading, index-base typing of all partial_trace call sites, alias/effect analysis",
+ "C01": "ast sibling-branch agreement (inverse axes == argsort of forward axes), layout rule (reversed dims <=> order=F, reversal-conjugate axes), option threading / literal-flag binding, index-base typing, flow-sensitive alias/effect analysis",
+ "C02": "unordered-iteration-into-permutation rule, symbolic reshape/transpose factorisation in monomial normal form, kept-first/layout agreement, index-base typing of every partial_trace call site, alias/effect analysis",
+ "C03": "permute/un-permute pairing (same perm, inverse flag, flipped+permuted dims), axis-exchange check against selected-subsystem extents, realignment data-chain and crossed-dims tables",
+ "C04": "truth-table equivalence of the Kraus-list classifiers, dagger discipline via expression normal forms, role binding of channel_dim results, 1-based partition slices, decomposition conventions (columns of V, rows of vh conjugated)",
+ "C05": "normal-form check that every dual Kraus element is Dagger of the input element, role-typed swap dims, dominance of the completeness guard, index coverage of the complementary construction",
+ "C06": "predicate-algebra skeletons over named sub-predicates, tolerance-role forwarding, representation-dispatch rule, interval interpretation of raising guards with dominance, Kraus sandwich normal forms, declared-kind analysis",
+ "C07": "mixed-radix decoder capacity vs loop bound, array layout/role tracking through transposes, answer-depends-on-question rule, class-wide effect analysis, cvxpy problem skeletons (POVM families, marginal families, NPA families)",
+ "C08": "XOR-to-general conversion box coverage, Tsirelson dual SDP skeleton, threading of reps/prob, linear-in-m range check of 1-based swap indices, PPT-partition base consistency, NPA families",
+ "C09": "strategy-dependence rule (answer loops vs question loops), Hermitian-declared-square rule, symbolic shape agreement of see-saw operators, mirror-program comparison (max/min, primal/dual), NPA families",
+ "C10": "picos problem skeletons: POVM cone + completeness, dual inequality direction and index pairing over enumerate, read-back order, dispatch by path condition, solver/kwargs threading",
+ "C11": "mirror of C10 (constraint-set equality with the discrimination primal, opposite senses, reversed dual inequality), unambiguous-exclusion families, unit-weight delegation",
+ "C12": "alias/effect analysis on the caller's state list, PPT constraint family with threaded bipartition, per-state hierarchy families, level threading by def-use, read-back order",
+ "C13": "unitary-covariance typing (Inv/Cov/Conj/Basis abstract domain with interprocedural summaries), Schatten-class typing of norm calls, predicate-guard dominance, closed-form comparison over a vocabulary of invariants",
+ "C14": "layout rule for Schmidt reshapes, abstract execution of the int path of declared int|list parameters, Schatten class of the negativity family, sibling prologue agreement, monotone-bound discipline of the S(k) routine",
+ "C15": "verdict governance (dominance of the PPT test over separable verdicts; control dependence of entangled verdicts on one-sided criteria), tolerance-role binding, threading, symbolic shapes of reduced states, certain-TypeError detection",
+ "C16": "tolerance forwarding, predicate skeletons, squareness-guard dominance, covariance typing with positive control, vec/unvec/commutant/tensor layout agreement",
+ "C17": "affine index-coverage of coefficient lists, interval guards, exhaustive index matches falling through to raise, projector normal forms, closed-form weights",
+ "C18": "index-base typing (0-based permutations vs 1-based perm_sign), decomposition-tuple misuse, enumeration family / normaliser agreement, sibling partial branches, counter pairing in the recursive enumerators",
+ "C19": "RNG discipline over the call-graph closure with a positive control, seed/is_real threading with control dependence, symbolic shape evaluation, list-extent kind rule, measurement normal forms",
+ "C20": "dimension algebra in monomial normal form (dims product vs operand size), Schatten class of the CP shortcut, delegation skeletons, Watrous and channel-fidelity problem skeletons",
 }
 NOTE = ("Decides the structural clauses listed in DESIGN.md section 4 for this property (necessary conditions visible in the "
         "shape of the code: conventions, threading, guards, aliasing, problem skeletons). The numerical identities of the "
